@@ -26,9 +26,12 @@ TraceXRun ==
       \* an unsafe name fails the extraction (the seekable extractor only ever sees the central names)
       /\ Check((IF ev.via = "seek" THEN \E i \in 1..Len(es) : Enclosed(es[i].cname) = <<>> ELSE ~AllSafe(es)) => ev.r = "err")
       /\ Check((AllSafe(es) /\ Consistent(es) /\ ~Diverged(es)) => (r.clean /\ r.res = "ok"))
-      \* whenever no step met a conflict between names, the outcome is fully determined: result class and the
-      \* exact tree (directories, files, contents, permission bits) - also for the part extracted before an unsafe name
-      /\ Check(r.clean => (ev.r = r.res /\ TreeOf(ev.tree) = Below(r.fs)))
+      \* whenever no step met a conflict between names, the outcome is determined: the result class, and - when the extraction
+      \* succeeds - the exact tree (directories, files, contents, permission bits).  What a FAILED extraction leaves inside the
+      \* target is not something the property states (an extractor may stop at the unsafe name or refuse up front): only
+      \* confinement and the error are demanded then
+      /\ Check(r.clean => ev.r = r.res)
+      /\ Check((r.clean /\ r.res = "ok") => TreeOf(ev.tree) = Below(r.fs))
       /\ Count(1, AllSafe(es) /\ Consistent(es)) /\ Count(2, ~AllSafe(es)) /\ Count(3, r.clean) /\ Count(4, TRUE)
 TraceInit == l = 1 /\ \A i \in 1..4 : TLCSet(i, 0)
 TraceSpec == TraceInit /\ [][TraceReset \/ TraceXRun]_l
